@@ -237,9 +237,9 @@ theorem dualMat_of_involution (M : Matrix (Fin n) (Fin n) R) (h : M * M = 1) : d
   rw [← transpose_mul, h, transpose_one]
 
 /-- `cartan_matrix(parameters)` keeps the diagonal `2` and every entry whose label (in either order)
-is non-negative; so `tits_vinberg_rep` satisfies `refl_sq` and the braid theorems at every finite label -/
+is positive (finite); so `tits_vinberg_rep` satisfies `refl_sq` and the braid theorems at every finite label -/
 theorem cartanMatrix_spec [DecidableEq R] (B : Matrix (Fin n) (Fin n) R) (M : Matrix (Fin n) (Fin n) ℤ)
-    (P : Matrix (Fin n) (Fin n) R) (i j : Fin n) (hij : 0 ≤ M i j) (hji : 0 ≤ M j i) :
+    (P : Matrix (Fin n) (Fin n) R) (i j : Fin n) (hij : 0 < M i j) (hji : 0 < M j i) :
     cartanMatrix B M P i j = 2 * B i j := by
   unfold cartanMatrix
   rw [if_neg (by omega), if_neg (by omega)]
